@@ -195,6 +195,18 @@ def check_generic(rec, http, cls, fam, ranges, offers, spec, match):
         offers[:] = offers_before
         return
     rec.observe("chosen_none" if got is None else "chosen_offer")
+    # the offers in another iterable spelling (the parameter is an Iterable of str): a tuple, a one-shot iterator, a generator
+    for nm_, other in (("tuple", tuple(offers)), ("iter", iter(offers)), ("generator", (o_ for o_ in offers))):
+        try:
+            g2 = acc.best_match(other)
+        except TypeError:
+            # an implementation that needs a sequence says so; that is not a wrong choice
+            rec.observe("offer_iterables_refused")
+            continue
+        rec.observe("offers_given_as_other_iterables")
+        if g2 != got:
+            rec.violation(f"C17/{fam}:choice-depends-on-how-the-offers-are-handed-over", f"{hdr!r}: offers {offers!r} as a list give {got!r}, as {nm_} {g2!r}", case, monitor="evaluator")
+            return
     # default= is returned only when nothing is acceptable
     for dflt in (offers[0], offers[-1], "zz-default"):
         gd = acc.best_match(offers, default=dflt)
